@@ -29,6 +29,7 @@ import vlib
 
 MAX_BLOB = 2 * 2 ** 20
 MAX_RESP = 16 * 1024
+CONNECT_T = 1        # peer_connect_timeout, always smaller than every blob_download_timeout used (T >= 2)
 WORK_BOUND = MAX_RESP * (MAX_RESP + 1) // 2 + (1 << 20)   # every '}' below the cap, once per segment
 RESP_KEYS = {'lbrycrd_address', 'available_blobs', 'blob_data_payment_rate', 'incoming_blob'}
 HEXMATCH = re.compile("^[a-f,0-9]+$")
@@ -440,7 +441,9 @@ class ClientSession:
         self.last_blob, self.last_dir = blob, d
         lens_seen = {blob.length}
         t0 = loop.vt
-        task = loop.create_task(request_blob(loop, blob, '127.0.0.1', 4444, 3, self.T, connected_protocol=self.proto))
+        task = loop.create_task(request_blob(loop, blob, '127.0.0.1', 4444, CONNECT_T, self.T, connected_protocol=self.proto))
+        done_at = []
+        task.add_done_callback(lambda _t: done_at.append(loop.vt))
         loop.drain()
         tr = self.transports[-1]
         proto = tr.protocol
@@ -499,7 +502,8 @@ class ClientSession:
         }
         extra = {'verified_flag': verified, 'on_disk': on_disk, 'elapsed': loop.vt - t0, 'request': sent_request,
                  'task': task, 'transport_closed': tr.closing, 'raised': list(tr.raised),
-                 'json_bytes': worst, 'rx': rx, 'lens_seen': [x for x in lens_seen if x is not None]}
+                 'json_bytes': worst, 'rx': rx, 'lens_seen': [x for x in lens_seen if x is not None],
+                 'done_after': (done_at[0] - t0) if done_at else None}
         if phase == 'pending':
             task.cancel()
             loop.drain()
@@ -559,6 +563,10 @@ def monitor_client(req, obs, extra, T):
     if extra['json_bytes'] > WORK_BOUND:
         return ('WORK: one data_received call fed %d bytes to json.loads (re-parsing at every "}"; %d bytes received in all): '
                 'a peer can stall the event loop past every timeout' % (extra['json_bytes'], extra['rx']))
+    if req.get('tag') in ('silence', 'short_silence', 'json_truncated') and extra['done_after'] is not None \
+            and not any(e[0] == 'lost' for e in req['events']) and extra['done_after'] < T:
+        return ('a stalled peer was given up after %s s, before blob_download_timeout=%s s (peer_connect_timeout is %s s)'
+                % (extra['done_after'], T, CONNECT_T))
     if req.get('tag') in REFUSE_TAGS and isinstance(obs['phase'], list) and obs['phase'][0] == 'ok':
         return 'the client accepted a response it must refuse (%s)' % req['tag']
     if req.get('honest'):
@@ -696,7 +704,7 @@ MISBEHAVIOURS = [
     'json_falsy_error', 'json_deep', 'json_only_address', 'oversized_open', 'oversized_ws', 'silence',
     'not_available', 'price_rejected', 'lost_mid_header', 'lost_after_header', 'late_bytes', 'slow_ok', 'slow_timeout',
     'hash_nonstr', 'avail_other', 'no_avail_key', 'no_price_key', 'second_response', 'len_bool',
-    'cap_hdr_in', 'cap_hdr_out', 'cap_junk_in', 'cap_junk_out', 'brace_flood', 'len_max', 'len_max_minus1',
+    'cap_hdr_in', 'cap_hdr_out', 'cap_junk_in', 'cap_junk_out', 'brace_flood', 'len_max', 'len_max_minus1', 'avail_empty_ok',
 ]
 
 
@@ -743,6 +751,10 @@ def gen_request(rng, T, mis=None, size=None, blob_kind=None, frag=None, known_mo
             pass
         if rng.random() < 0.3:
             body = blob + rng.randbytes(8)
+    elif mis == 'avail_empty_ok':
+        # what the real server answers for a verified blob that is not in its completed index: still an honest transfer
+        hdr = hd(available_blobs=[])
+        honest = True
     elif mis in ('len_max', 'len_max_minus1'):
         # the bound of AbstractBlob.set_length itself: exactly MAX_BLOB_SIZE must be accepted when the length is unknown
         hdr = hd(incoming_blob={'blob_hash': h, 'length': MAX_BLOB if mis == 'len_max' else MAX_BLOB - 1})
@@ -896,7 +908,7 @@ class ServerWorld:
     """a real BlobManager holding verified blobs (written through real writers) and real BlobServerProtocol
     objects, one per fake connection, all on one virtual-clock loop"""
 
-    def __init__(self, blobs, loop=None):
+    def __init__(self, blobs, loop=None, adopted=()):
         self.loop = loop or VLoop()
         self.own_loop = loop is None
         asyncio.set_event_loop(self.loop)
@@ -914,6 +926,9 @@ class ServerWorld:
             self.loop.drain()
             assert blob.get_is_verified() and h in self.bm.completed_blob_hashes
             self.store[h] = b
+            if h in adopted:
+                # a blob file adopted at start-up: verified on disk, not (yet) in the completed index
+                self.bm.completed_blob_hashes.discard(h)
         self.conns = []
 
     def connect(self, stall_after=None, port=None, drain=True):
@@ -1043,7 +1058,8 @@ def run_server_case(run, model, case):
     """case: {'kind':'server','blobs':[hex],'frags':[hex],'tag','expect_closed':bool,'stall':n|None}"""
     Flags.unmodelled = False
     blobs = [bytes.fromhex(x) for x in case['blobs']]
-    world = ServerWorld(blobs)
+    adopted = set(case.get('adopted', []))
+    world = ServerWorld(blobs, adopted=adopted)
     bad = None
     try:
         t = world.connect(stall_after=case.get('stall'))
@@ -1084,7 +1100,8 @@ def run_server_case(run, model, case):
     if not modelled:
         run.count('monitor-only')
         return
-    mod = model.call('server_run', store=[[sha(b), b.hex()] for b in blobs], frags=case['frags'])
+    mod = model.call('server_run', store=[[sha(b), b.hex()] for b in blobs],
+                     completed=[sha(b) for b in blobs if sha(b) not in adopted], frags=case['frags'])
     if Flags.unmodelled:
         run.count('unmodelled-json-value')
         return
@@ -1208,7 +1225,8 @@ def gen_server_case(rng, tag=None, frag=None):
         blobs = [big] + blobs
         chunks = [honest_request(sha(big))]
         stall = rng.choice([300, 17000])
-    return {'kind': 'server', 'blobs': [b.hex() for b in blobs], 'frags': [c.hex() for c in chunks], 'tag': tag,
+    adopted = [x for x in hs if rng.random() < 0.3] if tag != 'stall' else []
+    return {'kind': 'server', 'blobs': [b.hex() for b in blobs], 'frags': [c.hex() for c in chunks], 'tag': tag, 'adopted': adopted,
             'frag': frag, 'expect_closed': expect_closed, 'expect_served': expect_served, 'stall': stall,
             'modelled': modelled}
 
@@ -1288,7 +1306,8 @@ def run_e2e_case(run, model, case):
     blobs = [make_blob(rng, k, s) for k, s in zip(case['kinds'], case['sizes'])]
     T = 5
     loop = VLoop()
-    world = ServerWorld(blobs, loop=loop)
+    adopted = {sha(b) for b, a in zip(blobs, case.get('adopted', [])) if a}
+    world = ServerWorld(blobs, loop=loop, adopted=adopted)
     cdir = tempfile.mkdtemp(prefix='c10e')
     pipe = Pipe(loop, rng, *case['modes'])
     bad = None
@@ -1313,7 +1332,7 @@ def run_e2e_case(run, model, case):
             known = blob.length
             pipe.new_message()
             n0 = len(pipe.delivered['s2c'])
-            task = loop.create_task(request_blob(loop, blob, '127.0.0.1', 4444, 3, T, connected_protocol=proto))
+            task = loop.create_task(request_blob(loop, blob, '127.0.0.1', 4444, CONNECT_T, T, connected_protocol=proto))
             loop.drain()
             pipe.pump()
             loop.drain()
@@ -1364,7 +1383,8 @@ def run_e2e_case(run, model, case):
     mod_c = [None if o is None else {'phase': canon_model_obs(o)['phase'], 'verified': o['verified'], 'wdata': o['wdata']} for o in mod]
     run.compare('C10.e2e_client', case, impl_c, mod_c)
     if nconn == 1:
-        mods = model.call('server_run', store=[[sha(b), b.hex()] for b in blobs], frags=srv_frags)
+        mods = model.call('server_run', store=[[sha(b), b.hex()] for b in blobs],
+                          completed=[sha(b) for b in blobs if sha(b) not in adopted], frags=srv_frags)
         impl_s = [{k: v for k, v in it.items() if k != '_raw'} for it in srv_items]
         run.compare('C10.e2e_server', case, impl_s, canon_model_srv(mods)['outs'])
 
@@ -1394,7 +1414,7 @@ def gen_e2e_case(rng, big=False):
     if big:
         unknown[0] = False
     return {'kind': 'e2e', 'seed': rng.randrange(1 << 30), 'sizes': sizes, 'kinds': kinds, 'modes': modes,
-            'unknown': unknown, 'modelled': not big}
+            'unknown': unknown, 'modelled': not big, 'adopted': [rng.random() < 0.3 for _ in range(n)]}
 
 
 # ================================================================================ _parse_blob_response / deserialize micro-correspondence
@@ -1544,6 +1564,8 @@ def run_tcp_case(run, case):
         bm = BlobManager(loop, sdir, StubStorage(), conf)
         for b in blobs:
             blob = bm.get_blob(sha(b), len(b))
+            if blob.get_is_verified():
+                continue            # two blobs of the case are equal
             blob.get_blob_writer().write(b)
             await asyncio.wait_for(blob.verified.wait(), 10)
         server = BlobServer(loop, bm, ADDRESS, idle_timeout=3.0, transfer_timeout=5.0)
@@ -1652,6 +1674,109 @@ def run_tcp_case(run, case):
                                             'liar': case.get('liar'), 'proxy': case.get('proxy')})
 
 
+class _SmallSndBufServerProtocol(BlobServerProtocol):
+    """the unmodified server protocol; only the kernel send buffer of the accepted socket is small (slow link), so a
+    2 MiB sendfile really stays in progress"""
+
+    def connection_made(self, transport):
+        transport.get_extra_info('socket').setsockopt(socket.SOL_SOCKET, socket.SO_SNDBUF, 8192)
+        super().connection_made(transport)
+
+
+def run_tcp_twoclients_case(run, case):
+    """thorough, real loopback: clients A and B download the same 2 MiB blob from the real BlobServer; A aborts its
+    connection mid-transfer; B (slow, small receive window) must still get the byte-identical blob"""
+    rng = random.Random(case['seed'])
+    data = rng.randbytes(case['size'])
+    h = sha(data)
+    loop = asyncio.new_event_loop()
+    asyncio.set_event_loop(loop)
+    sdir = tempfile.mkdtemp(prefix='c10w')
+    bad = None
+
+    async def slow_conn(port):
+        sock = socket.socket(socket.AF_INET, socket.SOCK_STREAM)
+        sock.setsockopt(socket.SOL_SOCKET, socket.SO_RCVBUF, 8192)
+        sock.connect(('127.0.0.1', port))
+        sock.setblocking(False)
+        return await asyncio.open_connection(sock=sock, limit=16384)
+
+    async def read_header(reader):
+        buf = b''
+        while True:
+            buf += await reader.readexactly(1)
+            if buf.endswith(b'}'):
+                try:
+                    return json.loads(buf)
+                except ValueError:
+                    continue
+
+    async def go():
+        conf = Config(data_dir=sdir, wallet_dir=sdir, download_dir=sdir, config=os.path.join(sdir, 'settings.yml'))
+        bm = BlobManager(loop, sdir, StubStorage(), conf)
+        blob = bm.get_blob(h, len(data))
+        blob.get_blob_writer().write(data)
+        await asyncio.wait_for(blob.verified.wait(), 10)
+        server = BlobServer(loop, bm, ADDRESS, idle_timeout=10.0, transfer_timeout=20.0)
+        server.server_protocol_class = _SmallSndBufServerProtocol
+        port = free_port()
+        server.start_server(port, '127.0.0.1')
+        await asyncio.wait_for(server.started_listening.wait(), 5)
+        try:
+            req = honest_request(h)
+            br, bw = await slow_conn(port)
+            bw.write(req)
+            hd = await asyncio.wait_for(read_header(br), 5)
+            if hd.get('incoming_blob') != {'blob_hash': h, 'length': len(data)}:
+                return 'server header for B is wrong: %r' % (hd,)
+            got = await asyncio.wait_for(br.readexactly(case['b_first']), 5)
+            ar, aw = await slow_conn(port)
+            aw.write(req)
+            await asyncio.wait_for(read_header(ar), 5)
+            await asyncio.wait_for(ar.readexactly(case['a_read']), 5)
+            if case['a_exit'] == 'abort':
+                aw.transport.abort()
+            else:
+                aw.close()
+            await asyncio.sleep(0.4)
+            try:
+                while len(got) < len(data):
+                    chunk = await asyncio.wait_for(br.read(65536), 4)
+                    if not chunk:
+                        break
+                    got += chunk
+            except (ConnectionError, asyncio.TimeoutError):
+                pass
+            bw.close()
+            if got != data:
+                return ('client B received %d of %d bytes after client A of the same blob dropped its connection '
+                        'mid-transfer (real TCP)' % (len(got), len(data)))
+            return None
+        finally:
+            server.stop_server()
+            bm.stop()
+            await asyncio.sleep(0.01)
+    try:
+        bad = loop.run_until_complete(asyncio.wait_for(go(), 60))
+    except Exception as e:  # noqa
+        bad = 'tcp two-clients case crashed: %r' % (e,)
+    finally:
+        try:
+            for t in asyncio.all_tasks(loop):
+                t.cancel()
+            loop.run_until_complete(asyncio.sleep(0.01))
+            loop.run_until_complete(loop.shutdown_default_executor())
+        except Exception:
+            pass
+        loop.close()
+        asyncio.set_event_loop(None)
+        shutil.rmtree(sdir, ignore_errors=True)
+    run.case(case, nontrivial=True, validated=False)
+    run.count('tcp-twoclients:' + case['a_exit'])
+    if bad:
+        run.violation(case, bad, signature=dict(case))
+
+
 def gen_tcp_case(rng, i):
     n = rng.choice([1, 2, 3])
     sizes = [rng.choice([1, 100, 4096, 70000, MAX_BLOB - 1, MAX_BLOB]) if j == 0 else rng.choice([1, 4096, 300000]) for j in range(n)]
@@ -1690,14 +1815,14 @@ def run_race_case(run, model, case):
         blob = SpyBlobFile(loop, h, case['known'], None, d)
         th = None
         if 's' not in case['order']:
-            th = loop.create_task(request_blob(loop, blob, '127.0.0.1', 4444, 3, T))
+            th = loop.create_task(request_blob(loop, blob, '127.0.0.1', 4444, CONNECT_T, T))
             loop.drain()
-        tl = loop.create_task(request_blob(loop, blob, '127.0.0.1', 4445, 3, T))
+        tl = loop.create_task(request_blob(loop, blob, '127.0.0.1', 4445, CONNECT_T, T))
         loop.drain()
         hq, lq = list(case['honest']), list(case['liar_events'])
         for who in case['order']:
             if who == 's' and th is None:
-                th = loop.create_task(request_blob(loop, blob, '127.0.0.1', 4444, 3, T))
+                th = loop.create_task(request_blob(loop, blob, '127.0.0.1', 4444, CONNECT_T, T))
             elif who == 'h' and hq and 4444 in trs:
                 trs[4444].deliver(bytes.fromhex(hq.pop(0)))
             elif who == 'l' and lq:
@@ -1732,7 +1857,7 @@ def run_race_case(run, model, case):
         if case.get('expect') == 'retry' and not verified:
             # the honest peer is asked again (what the downloader does next): this attempt must succeed
             loop.advance(2 * T + 1)
-            tr3 = loop.create_task(request_blob(loop, blob, '127.0.0.1', 4446, 3, T))
+            tr3 = loop.create_task(request_blob(loop, blob, '127.0.0.1', 4446, CONNECT_T, T))
             loop.drain()
             if 4446 in trs:
                 trs[4446].deliver(bytes.fromhex(''.join(case['honest'])))
@@ -1806,7 +1931,8 @@ def gen_race_case(rng, liar, when, T=3, size=None):
     hchunks = fragment(rng, honest_header(sha(blob), n) + blob, len(honest_header(sha(blob), n)), rng.choice(['random', 'split', 'partial', 'hdrcut', 'plus1']))
     if len(hchunks) < 2:
         hchunks = fragment(rng, hchunks[0], 0, 'random') if len(hchunks[0]) > 1 else hchunks
-    lr, _ = gen_request(rng, T, mis=liar, blob=blob, known_mode='none', drain_p=0.0)
+    lr, _ = gen_request(rng, T, mis=liar, blob=blob, known_mode='none', drain_p=0.0,
+                        frag=rng.choice(['one', 'split', 'partial', 'random', 'hdrcut', 'plus1', 'minus1']))
     lev = [e for e in lr['events'] if e[0] in ('data', 'lost')]
     nh, nl = len(hchunks), len(lev)
     if when == 'before':
@@ -1897,6 +2023,9 @@ class FakePeer:
             return self.send(t, honest_header(h, n + 1), body)
         if kind == 'excess':
             return self.send(t, honest_header(h, n + 1), body + b'x')
+        if kind == 'short_len':
+            k = max(n // 2, 1) if n > 1 else 2
+            return self.send(t, honest_header(h, k), b'\x5a' * k)
         if kind == 'close0':
             return self.send(t, 'close')
         if kind == 'unavailable':
@@ -1939,15 +2068,22 @@ def run_downloader_case(run, model, case):
         q = asyncio.Queue()
         q.put_nowait(list(kpeers))
         dl = BlobDownloader(loop, conf, bm, q)
-        for i, h in enumerate(hs):
-            if case['precache'][i]:
-                bm.get_blob(h)
-            length = len(blobs[i]) if case['with_length'][i] else None
-            t0 = loop.vt
-            task = loop.create_task(dl.download_blob(h, length))
-            loop.drain()
-            while not task.done() and loop.vt - t0 < LIMIT:
-                loop.advance(1)
+        order = [i for g in case.get('groups', [[i] for i in range(len(hs))]) for i in g]
+        group_of = {i: g for g in case.get('groups', [[i] for i in range(len(hs))]) for i in g}
+        tasks = {}
+        for i in order:
+            h = hs[i]
+            if i not in tasks:
+                # all blobs of one group are requested at the same time through the same BlobDownloader
+                t0 = loop.vt
+                for j in group_of[i]:
+                    if case['precache'][j]:
+                        bm.get_blob(hs[j])
+                    tasks[j] = loop.create_task(dl.download_blob(hs[j], len(blobs[j]) if case['with_length'][j] else None))
+                loop.drain()
+                while not all(tasks[j].done() for j in group_of[i]) and loop.vt - t0 < LIMIT:
+                    loop.advance(1)
+            task = tasks[i]
             path = os.path.join(d, h)
             on_disk = open(path, 'rb').read() if os.path.isfile(path) else None
             blob = bm.blobs.get(h)
@@ -1982,11 +2118,12 @@ def run_downloader_case(run, model, case):
     run.case(case, nontrivial=True, validated=False)
     if bad:
         run.violation(case, bad, signature={'kind': 'downloader', 'seed': case['seed'], 'sizes': case['sizes'],
-                                            'peers': case['peers'], 'precache': case['precache']})
+                                            'peers': case['peers'], 'precache': case['precache'],
+                                            'groups': case.get('groups')})
 
 
-def gen_downloader_case(rng, kind=None, two_peers=None):
-    nb = rng.choice([2, 3])
+def gen_downloader_case(rng, kind=None, two_peers=None, concurrent=False):
+    nb = 3 if concurrent else rng.choice([2, 3])
     sizes = [rng.choice([1, 100, 5000, 70000]) for _ in range(nb)]
     two = rng.random() < 0.5 if two_peers is None else two_peers
     kind = kind or rng.choice(ONCE_KINDS)
@@ -2000,8 +2137,12 @@ def gen_downloader_case(rng, kind=None, two_peers=None):
         holds = [j for j in range(nb) if j != target] if rng.random() < 0.6 else list(range(nb))
         peers.append({'holds': holds, 'once': {}})
     precache = [rng.random() < 0.3 for _ in range(nb)]
-    return {'kind': 'downloader', 'seed': rng.randrange(1 << 30), 'sizes': sizes, 'peers': peers,
+    case = {'kind': 'downloader', 'seed': rng.randrange(1 << 30), 'sizes': sizes, 'peers': peers,
             'with_length': with_length, 'precache': precache, 'once_kind': kind}
+    if concurrent:
+        # warm-up blob 0 (the connection is kept), then all the others at the same time (saving + streaming a stream)
+        case['groups'] = [[0], list(range(1, nb))]
+    return case
 
 
 def fixed_downloader_cases():
@@ -2014,6 +2155,324 @@ def fixed_downloader_cases():
            'with_length': [True, True], 'precache': [True, True], 'once_kind': 'wrong_length'}
     yield {'kind': 'downloader', 'seed': 82, 'sizes': [100], 'peers': [{'holds': [0], 'once': {'0': 'wrong_length'}}],
            'with_length': [True], 'precache': [True], 'once_kind': 'wrong_length'}
+    # /verif/seeded/C10-12: one warm-up download, then two DIFFERENT blobs at the same time, honest server only
+    yield {'kind': 'downloader', 'seed': 121, 'sizes': [5000, 70000, 30000], 'peers': [{'holds': [0, 1, 2], 'once': {}}],
+           'with_length': [False, True, False], 'precache': [False, False, False], 'once_kind': None,
+           'groups': [[0], [1, 2]]}
+
+
+# ================================================================================ two clients of the SAME blob, one goes away mid-transfer
+
+def run_twoclients_case(run, model, case):
+    """case: {'kind':'twoclients','seed','size','a_window','b_window','a_exit':'eof'|'reset'|'finish'|'stall',
+    'order':'ab'|'ba','adv':k}: one real server, clients A and B request the same blob; both transfers are in progress
+    (their windows are full); A goes away; B then drains its window. Monitor: B gets the byte-identical blob."""
+    rng = random.Random(case['seed'])
+    blob = rng.randbytes(case['size'])
+    h = sha(blob)
+    world = ServerWorld([blob])
+    bad = None
+    try:
+        ta = tb = None
+        for who in case['order']:
+            if who == 'a':
+                ta = world.connect(stall_after=case['a_window'])
+                ta.deliver(honest_request(h))
+            else:
+                tb = world.connect(stall_after=case['b_window'])
+                tb.deliver(honest_request(h))
+            world.loop.drain()
+        if case.get('adv'):
+            world.loop.advance(case['adv'])
+        if case['a_exit'] == 'eof':
+            ta.peer_close()
+        elif case['a_exit'] == 'reset':
+            ta.force_close(ConnectionResetError('reset by peer'))
+        elif case['a_exit'] == 'finish':
+            ta.resume()
+        world.loop.drain()
+        tb.resume()
+        world.loop.drain()
+        items = decode_server_stream(b''.join(tb.written))
+        got = [bytes.fromhex(it['blob']) for it in items if 'blob' in it]
+        if got != [blob]:
+            bad = ('client B did not receive the blob (%d of %d bytes) after client A of the same blob %s mid-transfer'
+                   % (len(got[0]) if got else 0, len(blob), {'eof': 'closed its connection', 'reset': 'reset its connection',
+                                                              'finish': 'finished', 'stall': 'stalled'}[case['a_exit']]))
+        elif tb.closing:
+            bad = 'client B got the blob but its connection was closed'
+        elif check_served(world.store, items):
+            bad = check_served(world.store, items)
+        elif not served_ok(world, h):
+            bad = 'server stopped serving other connections'
+        run.count('twoclients:' + case['a_exit'])
+    finally:
+        world.close()
+    run.case(case, nontrivial=True, validated=False)
+    if bad:
+        run.violation(case, bad, signature={k: case[k] for k in ('kind', 'seed', 'size', 'a_window', 'b_window', 'a_exit', 'order')})
+
+
+def gen_twoclients_case(rng, a_exit=None):
+    size = rng.choice([20000, 40000, 100000, 100000, 300000, 2 * 2 ** 20 if rng.random() < 0.15 else 40000])
+    return {'kind': 'twoclients', 'seed': rng.randrange(1 << 30), 'size': size,
+            'a_window': rng.choice([300, 5000, 17000]), 'b_window': rng.choice([300, 5000, 17000, 33000]),
+            'a_exit': a_exit or rng.choice(['eof', 'reset', 'finish', 'stall']), 'order': rng.choice(['ab', 'ba']),
+            'adv': rng.choice([0, 0, 5, 29])}
+
+
+# ================================================================================ the stream layer: StreamDownloader over scripted peers
+
+from lbry.stream.descriptor import StreamDescriptor  # noqa: E402
+from lbry.stream.downloader import StreamDownloader  # noqa: E402
+from lbry.error import DownloadSDTimeoutError  # noqa: E402
+
+STREAM_LEN_SIG = {'kind': 'stream-blob-length-not-passed'}
+
+
+def run_stream_case(run, model, case):
+    """case: {'kind':'stream','seed','file_size','scenario': 'honest' | 'content_liar' | 'sd_liar', 'lie': kind,
+    'save_blobs': bool, 'reread': bool}. A real stream is created (StreamDescriptor.create_stream), its blobs are served
+    by scripted peers, the client runs the REAL StreamDownloader (load_descriptor / read_blob / download_stream_blob)
+    on the virtual clock. content_liar: the first peer lies once about a CONTENT blob (whose length the descriptor
+    knows), then an honest peer is offered; sd_liar: the same for the sd blob, whose length nobody knows (the known
+    finding race-length-poison through the production path). Monitor only."""
+    rng = random.Random(case['seed'])
+    loop = VLoop()
+    asyncio.set_event_loop(loop)
+    src, cdir = tempfile.mkdtemp(prefix='c10S'), tempfile.mkdtemp(prefix='c10C')
+    bad, sig = None, None
+    LIMIT = 45
+    try:
+        plain = rng.randbytes(case['file_size'])
+        fpath = os.path.join(src, 'movie.bin')
+        open(fpath, 'wb').write(plain)
+        sconf = Config(data_dir=src, wallet_dir=src, download_dir=src, config=os.path.join(src, 'settings.yml'))
+        sbm = BlobManager(loop, src, StubStorage(), sconf)
+        desc = loop.run_until_complete(StreamDescriptor.create_stream(loop, src, fpath, blob_completed_callback=sbm.blob_completed))
+        loop.drain()
+        served = {}
+        for nm in os.listdir(src):
+            if valid_hash(nm):
+                served[nm] = open(os.path.join(src, nm), 'rb').read()
+        conf = Config(data_dir=cdir, wallet_dir=cdir, download_dir=cdir, config=os.path.join(cdir, 'settings.yml'))
+        conf.blob_download_timeout = 3.0
+        conf.peer_connect_timeout = 2.0
+        conf.save_blobs = case.get('save_blobs', True)
+        bm = BlobManager(loop, cdir, StubStorage(), conf)
+        content = [b for b in desc.blobs[:-1]]
+        target = content[rng.randrange(len(content))]
+        lie_hash = desc.sd_hash if case['scenario'] == 'sd_liar' else target.blob_hash
+        liar = FakePeer(loop, 6100, served, {lie_hash: case.get('lie', 'wrong_length')} if case['scenario'] != 'honest' else {}, rng)
+        honest = FakePeer(loop, 6101, served, {}, rng)
+        peers = {6100: liar, 6101: honest}
+        loop.fake_connect = lambda p, host, port: peers[port].connect(p, host)
+        kl = make_kademlia_peer(b'2' * 48, '127.0.0.1', tcp_port=6100, allow_localhost=True)
+        kh = make_kademlia_peer(b'1' * 48, '127.0.0.1', tcp_port=6101, allow_localhost=True)
+        sd = StreamDownloader(loop, conf, bm, desc.sd_hash, None if case['scenario'] == 'sd_liar' else desc)
+
+        def run_task(coro, limit=LIMIT, offer_honest_when_liar_dropped=False):
+            t0 = loop.vt
+            task = loop.create_task(coro)
+            loop.drain()
+            offered = not offer_honest_when_liar_dropped
+            while not task.done() and loop.vt - t0 < limit:
+                if not offered and (kl in sd.blob_downloader.ignored or loop.vt - t0 >= 8):
+                    sd.peer_queue.put_nowait([kh])
+                    offered = True
+                loop.advance(1)
+            return task
+
+        if case['scenario'] == 'sd_liar':
+            sd.peer_queue.put_nowait([kl])
+            t1 = run_task(sd.load_descriptor(), limit=10)          # the liar answers; the attempt may time out
+            sd.peer_queue.put_nowait([kh])
+            t2 = run_task(sd.load_descriptor(), limit=20) if sd.descriptor is None else None   # the retry
+            blob = bm.blobs.get(desc.sd_hash)
+            if sd.descriptor is None:
+                bad = ('the stream descriptor could not be loaded from an honest peer after another peer lied once about the '
+                       'sd blob (%s): blob.length %r, true %d' % (case.get('lie'), blob.length if blob else None, len(served[desc.sd_hash])))
+                if blob is not None and not blob.get_is_verified() and blob.length is not None \
+                        and blob.length != len(served[desc.sd_hash]):
+                    sig = POISON_SIG
+            for t in (t1, t2):
+                if t is not None and not t.done():
+                    t.cancel()
+        else:
+            if case['scenario'] == 'content_liar':
+                sd.peer_queue.put_nowait([kl])
+            else:
+                sd.peer_queue.put_nowait([kh])
+            todo = [target] if case['scenario'] == 'content_liar' else content
+            for bi in todo:
+                task_holder = {}
+                t0 = loop.vt
+                task = loop.create_task(sd.read_blob(bi))
+                loop.drain()
+                cb = bm.blobs.get(bi.blob_hash)
+                if cb is not None and not cb.get_is_verified() and cb.length != bi.length:
+                    bad = ('a content blob whose length the descriptor knows (%d) is requested with blob.length %r: the length '
+                           'does not reach the client, so the first peer\'s announcement decides it' % (bi.length, cb.length))
+                    sig = STREAM_LEN_SIG
+                offered = case['scenario'] != 'content_liar'
+                while not task.done() and loop.vt - t0 < LIMIT:
+                    if not offered and (kl in sd.blob_downloader.ignored or loop.vt - t0 >= 8):
+                        sd.peer_queue.put_nowait([kh])
+                        offered = True
+                    loop.advance(1)
+                idx = desc.blobs.index(bi)
+                want = plain[idx * (MAX_BLOB - 1):(idx + 1) * (MAX_BLOB - 1)]
+                if not task.done() or task.cancelled() or task.exception() is not None:
+                    cb = bm.blobs.get(bi.blob_hash)
+                    b2 = ('read_blob of content blob %d did not complete within %d s although an honest peer serves it (%s '
+                          'once by the first peer): blob.length %r, true %d, peers answered %r' % (
+                              idx, LIMIT, case.get('lie') if case['scenario'] == 'content_liar' else 'no lie',
+                              cb.length if cb else None, bi.length, {p: fp.log for p, fp in peers.items()}))
+                    if not bad:
+                        bad = b2
+                    if case['scenario'] == 'content_liar' and cb is not None and cb.length != bi.length:
+                        sig = STREAM_LEN_SIG
+                    if not task.done():
+                        task.cancel()
+                        loop.drain()
+                    break
+                if task.result() != want:
+                    bad = bad or 'read_blob returned bytes that are not the plaintext of content blob %d' % idx
+                    break
+                if case.get('reread'):
+                    # seek back: the same blob is needed again (with save_blobs=False it has to be fetched again)
+                    t2 = run_task(sd.read_blob(bi))
+                    if not t2.done() or t2.cancelled() or t2.exception() is not None or t2.result() != want:
+                        bad = bad or ('reading content blob %d a second time failed (%r) with save_blobs=%r' % (
+                            idx, (t2.exception() if t2.done() and not t2.cancelled() else 'pending/cancelled'), conf.save_blobs))
+                        if not t2.done():
+                            t2.cancel()
+                            loop.drain()
+                        break
+        run.count('stream:%s:%s' % (case['scenario'], case.get('lie')))
+        sd.stop()
+        bm.stop()
+        sbm.stop()
+    finally:
+        loop.shutdown()
+        asyncio.set_event_loop(None)
+        shutil.rmtree(src, ignore_errors=True)
+        shutil.rmtree(cdir, ignore_errors=True)
+    run.case(case, nontrivial=True, validated=False)
+    if bad:
+        run.violation(case, bad, signature=sig or {'kind': 'stream', 'seed': case['seed'], 'scenario': case['scenario'],
+                                                   'lie': case.get('lie'), 'save_blobs': case.get('save_blobs', True)})
+
+
+def stream_cases(rng, thorough=False):
+    for lie in ('wrong_length', 'excess', 'short_len', 'corrupt'):
+        yield {'kind': 'stream', 'seed': rng.randrange(1 << 30), 'file_size': rng.choice([1000, 50000]),
+               'scenario': 'content_liar', 'lie': lie}
+    yield {'kind': 'stream', 'seed': rng.randrange(1 << 30), 'file_size': 50000, 'scenario': 'honest'}
+    yield {'kind': 'stream', 'seed': rng.randrange(1 << 30), 'file_size': 20000, 'scenario': 'honest', 'save_blobs': False,
+           'reread': True}
+    yield {'kind': 'stream', 'seed': rng.randrange(1 << 30), 'file_size': 20000, 'scenario': 'honest', 'reread': True}
+    yield {'kind': 'stream', 'seed': rng.randrange(1 << 30), 'file_size': 3000, 'scenario': 'sd_liar', 'lie': 'wrong_length'}
+    if thorough:
+        yield {'kind': 'stream', 'seed': rng.randrange(1 << 30), 'file_size': 2 * 2 ** 20 + 300000, 'scenario': 'content_liar',
+               'lie': 'short_len'}
+        yield {'kind': 'stream', 'seed': rng.randrange(1 << 30), 'file_size': 2 * 2 ** 20 + 300000, 'scenario': 'honest'}
+
+
+# ================================================================================ memory-only nodes (save_blobs=False): consume, then again
+
+def run_memonly_case(run, model, case):
+    """case: {'kind':'memonly','seed','size','side':'client'|'server','rounds':k}. client: BlobDownloader with
+    save_blobs=False downloads a blob (BlobBuffer), reads it (which consumes it), and needs it again k times.
+    server: a memory-only node serves its BlobBuffer copy once (consumed by sendfile) and is asked again."""
+    rng = random.Random(case['seed'])
+    blob = rng.randbytes(case['size'])
+    h = sha(blob)
+    loop = VLoop()
+    asyncio.set_event_loop(loop)
+    d = tempfile.mkdtemp(prefix='c10M')
+    bad = None
+    impl = mods = None
+    try:
+        conf = Config(data_dir=d, wallet_dir=d, download_dir=d, config=os.path.join(d, 'settings.yml'))
+        conf.blob_download_timeout = 3.0
+        conf.peer_connect_timeout = 2.0
+        conf.save_blobs = False
+        bm = BlobManager(loop, d, StubStorage(), conf)
+        if case['side'] == 'client':
+            peer = FakePeer(loop, 6200, {h: blob}, {}, rng)
+            loop.fake_connect = lambda p, host, port: peer.connect(p, host)
+            q = asyncio.Queue()
+            q.put_nowait([make_kademlia_peer(b'1' * 48, '127.0.0.1', tcp_port=6200, allow_localhost=True)])
+            dl = BlobDownloader(loop, conf, bm, q)
+            for rnd in range(case['rounds']):
+                t0 = loop.vt
+                task = loop.create_task(dl.download_blob(h, len(blob) if case.get('with_length') else None))
+                loop.drain()
+                while not task.done() and loop.vt - t0 < 30:
+                    loop.advance(1)
+                if not task.done() or task.cancelled() or task.exception() is not None:
+                    bad = 'round %d: download_blob of a memory-only blob did not complete' % rnd
+                    break
+                b = task.result()
+                if not b.get_is_verified():
+                    bad = 'round %d: download_blob returned an unverified blob' % rnd
+                    break
+                try:
+                    with b.reader_context() as r:
+                        got = r.read()
+                except Exception as e:  # noqa
+                    bad = 'round %d: the blob download_blob returned cannot be read: %r (peer was asked %d times)' % (
+                        rnd, e, len(peer.log))
+                    break
+                if got != blob:
+                    bad = 'round %d: bytes read from the memory-only blob differ' % rnd
+                    break
+                if len(peer.log) != rnd + 1:
+                    bad = 'round %d: the peer was asked %d times' % (rnd, len(peer.log))
+                    break
+            dl.close()
+        else:
+            sb = bm.get_blob(h, len(blob))
+            sb.get_blob_writer().write(blob)
+            loop.drain()
+            assert sb.get_is_verified() and type(sb).__name__ == 'BlobBuffer'
+            impl, mods = [], []
+            for rnd in range(case['rounds']):
+                p = BlobServerProtocol(loop, bm, ADDRESS, idle_timeout=IDLE_T, transfer_timeout=TRANSFER_T)
+                t = FakeTransport(loop, p, peer=('127.0.0.1', 5200 + rnd))
+                loop.drain()
+                t.deliver(honest_request(h))
+                loop.drain()
+                items = decode_server_stream(b''.join(t.written))
+                b2 = check_served({h: blob}, items, hdr_premises=False)
+                if b2:
+                    bad = 'request %d to a memory-only node that %s: %s' % (
+                        rnd, 'holds the blob' if rnd == 0 else 'has already served (consumed) its copy', b2)
+                    break
+                if rnd == 0 and [x for x in items if 'blob' in x] == []:
+                    bad = 'a memory-only node that holds the verified blob did not serve it'
+                    break
+                if rnd > 0 and t.closing:
+                    bad = 'request %d: connection closed instead of a "not available" answer' % rnd
+                    break
+                impl.append({'open': not t.closing, 'buf': p.buf.hex(), 'outs': [{k: v for k, v in it.items() if k != '_raw'} for it in items]})
+                m = model.call('server_run', store=[[h, blob.hex()]] if rnd == 0 else [], completed=[],
+                               frags=[honest_request(h).hex()])
+                mods.append(canon_model_srv(m))
+                t.peer_close()
+                loop.drain()
+        bm.stop()
+        run.count('memonly:' + case['side'])
+    finally:
+        loop.shutdown()
+        asyncio.set_event_loop(None)
+        shutil.rmtree(d, ignore_errors=True)
+    run.case(case, nontrivial=True, validated=impl is not None)
+    if bad:
+        run.violation(case, bad, signature={k: case[k] for k in ('kind', 'seed', 'size', 'side', 'rounds')})
+    elif impl is not None:
+        run.compare('C10.memory_only_server', case, impl, mods)
 
 
 # ================================================================================ server timers: slow readers, silent peers, stalled transfers
@@ -2198,6 +2657,12 @@ def dispatch(run, model, case):
         run_race_case(run, model, case)
     elif k == 'downloader':
         run_downloader_case(run, model, case)
+    elif k == 'twoclients':
+        run_twoclients_case(run, model, case)
+    elif k == 'stream':
+        run_stream_case(run, model, case)
+    elif k == 'memonly':
+        run_memonly_case(run, model, case)
     else:
         raise ValueError('unknown case kind %r' % (k,))
 
@@ -2282,6 +2747,12 @@ def main(run):
         'downloader: the real BlobDownloader.download_blob, 2-3 blobs over keep-alive connections to one or two responsive scripted '
         'peers; a peer misbehaves once for a blob after an earlier blob was fetched (10 kinds) and is honest afterwards; blob '
         'objects optionally pre-cached without a length (monitor only). '
+        'twoclients: two windowed clients of the SAME blob on one server, one closes / resets / finishes / stalls mid-transfer, '
+        'the other must get the blob. adopted blobs (verified, absent from completed_blob_hashes) in server and e2e cases. '
+        'stream: a real stream (StreamDescriptor.create_stream) served by scripted peers to the real StreamDownloader '
+        '(load_descriptor / read_blob): a peer lying once about a content blob or the sd blob, then an honest peer; re-reads. '
+        'memonly: save_blobs=False histories download -> consume -> request again (client) and serve -> asked again (server). '
+        'downloader groups: a warm-up download, then two different blobs concurrently through one BlobDownloader. '
         'parse: _parse_blob_response on mutated headers. thorough adds loopback TCP with the real BlobServer. '
         'distinct = distinct canonical case; non-trivial = every case.' % (len(MISBEHAVIOURS), len(SERVER_TAGS)))
     corpus_dir = os.path.join(vlib.VERIF, 'harness', 'corpus', 'C10')
@@ -2333,7 +2804,7 @@ def main(run):
             if liar not in ('len_bool', 'known_wrong'):   # known_wrong: the CALLER's length is wrong, not a peer's doing
                 dispatch(run, model, gen_retry_case(rng, liar))
     # --- the real BlobDownloader over responsive scripted peers: a peer misbehaves once mid-session, honest afterwards
-    for case in list(fixed_downloader_cases())[2:]:
+    for case in list(fixed_downloader_cases())[2:3]:
         dispatch(run, model, case)
     for rep in range(mult):
         for kind in ONCE_KINDS:
@@ -2341,6 +2812,24 @@ def main(run):
                 dispatch(run, model, gen_downloader_case(rng, kind=kind, two_peers=two))
     for _ in range(20 * mult):
         dispatch(run, model, gen_downloader_case(rng))
+    for rep in range(mult):
+        for kind in [None, None] + ONCE_KINDS:
+            c = gen_downloader_case(rng, kind=kind or 'corrupt', two_peers=rng.random() < 0.4, concurrent=True)
+            if kind is None:
+                c['peers'][0]['once'] = {}
+            dispatch(run, model, c)
+    # --- the stream layer (real StreamDownloader) and memory-only nodes (save_blobs=False)
+    for rep in range(mult):
+        for case in stream_cases(rng, thorough and rep == 0):
+            dispatch(run, model, case)
+        for side in ('client', 'server'):
+            for size in (1, 5000, 70000):
+                dispatch(run, model, {'kind': 'memonly', 'seed': rng.randrange(1 << 30), 'size': size, 'side': side,
+                                      'rounds': rng.choice([2, 3]), 'with_length': rng.random() < 0.5})
+    # --- two clients downloading the same blob from one server, one of them goes away mid-transfer
+    for rep in range(3 * mult):
+        for a_exit in ('eof', 'reset', 'finish', 'stall'):
+            dispatch(run, model, gen_twoclients_case(rng, a_exit))
     # --- server timers: slow readers, silent peers, stalled transfers
     for case in fixed_tserver_cases():
         dispatch(run, model, case)
@@ -2353,6 +2842,10 @@ def main(run):
     if thorough:
         for i in range(27):
             dispatch(run, None, gen_tcp_case(rng, i))
+        for i in range(4):
+            run_tcp_twoclients_case(run, {'kind': 'tcp-twoclients', 'seed': rng.randrange(1 << 30), 'size': 2 * 2 ** 20,
+                                          'b_first': rng.choice([1000, 100000]), 'a_read': rng.choice([1, 50000]),
+                                          'a_exit': ['abort', 'close'][i % 2]})
     # --- oversized-JSON work bound (the defect repaired by `fix: blob client bounds the bytes it scans ...`)
     dispatch(run, model, flood_case(400000 if thorough else 160000))
     run.exhaustive = False
